@@ -1,20 +1,178 @@
 package govc
 
 import (
+	"fmt"
 	"go/ast"
 	"go/token"
 	"go/types"
+	"strings"
 
 	"golang.org/x/tools/go/ssa"
 )
 
-// Ghost layer: lockset discipline, lock invariants, resources. Filled in incrementally.
+// Ghost layer: lock invariants and the lockset discipline, sync.Once, ghost fields, observed-value flags.
 
-func (x *Exec) guardField(n *node, owner, field string, obj *Term, pos token.Pos, write bool) {}
+// ---------- locks ----------
 
-func (x *Exec) guardMap(n *node, mv ssa.Value, m *Term, pos token.Pos, write bool) {}
+func (x *Exec) lockInvFor(owner, field string) *LockInv {
+	for _, li := range x.P.Spec.Locks {
+		if li.Type == owner && li.Mutex == field {
+			return li
+		}
+	}
+	return nil
+}
 
-func (x *Exec) guardMapByType(n *node, mt *types.Map, m *Term, pos token.Pos, write bool) {}
+// guardedBy returns the lock that guards heap component prefix key ("" if none).
+func (x *Exec) guardedBy(key string) *LockInv {
+	for _, li := range x.P.Spec.Locks {
+		for _, g := range li.Guards {
+			if g == key || strings.HasPrefix(key, g+".") {
+				return li
+			}
+		}
+	}
+	return nil
+}
+
+func lockName(li *LockInv) string { return li.Type + "." + li.Mutex }
+
+// mutexOf resolves the receiver of Lock/Unlock to (owner type, field name, owner object).
+func (x *Exec) mutexOf(recv Value) (string, string, *Term, bool) {
+	lv, ok := recv.(LocV)
+	if !ok || lv.Kind != "field" {
+		return "", "", nil, false
+	}
+	return lv.Outer, fieldPathName(lv.ST, lv.Path), lv.Obj, true
+}
+
+func (x *Exec) lockOp(n *node, recv Value, pos token.Pos, what string) {
+	st := n.st
+	owner, field, obj, ok := x.mutexOf(recv)
+	if !ok {
+		x.VC.Warnf("%s on a mutex the engine cannot identify in %s", what, x.TopName)
+		return
+	}
+	li := x.lockInvFor(owner, field)
+	name := owner + "." + field
+	if li == nil {
+		// a lock without a declared invariant protects nothing the contracts rely on
+		if what == "Lock" {
+			st.Locks[name] = true
+		} else {
+			delete(st.Locks, name)
+		}
+		return
+	}
+	switch what {
+	case "Lock":
+		if st.Locks[name] {
+			x.Oblige("lockorder", name+" acquired while already held", fmt.Sprint(pos), pos, n.guard, False, li.Props)
+		}
+		st.Locks[name] = true
+		delete(st.Locks, "?"+name)
+		// other threads may have changed everything the lock guards
+		for _, g := range li.Guards {
+			x.havocPrefixQuiet(n, g)
+		}
+		for _, c := range li.Invs {
+			env := x.lockEnv(st, n.guard, obj, owner, true)
+			g := env.EvalBool(c.Expr)
+			x.reportSpecErrors(env, "lockinv "+name, c)
+			x.VC.Assume(n.guard, g, "lockinv:"+name)
+		}
+	case "Unlock":
+		if !st.Locks[name] {
+			x.Oblige("lockset", name+" released but not held", fmt.Sprint(pos), pos, n.guard, False, li.Props)
+		}
+		for _, c := range li.Invs {
+			env := x.lockEnv(st, n.guard, obj, owner, false)
+			g := env.EvalBool(c.Expr)
+			x.reportSpecErrors(env, "lockinv "+name, c)
+			props := c.Props
+			if props == nil {
+				props = li.Props
+			}
+			x.Oblige("lockinv", name+": "+clauseLabel(c), fmt.Sprint(pos), pos, n.guard, g, props)
+		}
+		delete(st.Locks, name)
+	}
+}
+
+// lockEnv evaluates a lock invariant with `self` bound to the object that owns the mutex.
+func (x *Exec) lockEnv(st *State, guard *Term, obj *Term, owner string, assume bool) *SpecEnv {
+	errs := []string{}
+	e := &SpecEnv{x: x, vars: map[string]Value{}, st: st, old: x.Entry, guard: guard, assume: assume, errs: &errs}
+	if t := x.P.LookupType(owner); t != nil {
+		e.vars["self"] = Scalar{T: obj, Ty: types.NewPointer(t)}
+	}
+	return e
+}
+
+// havocPrefixQuiet havocs a guarded component without recording it as a write of this activation.
+func (x *Exec) havocPrefixQuiet(n *node, k string) {
+	n.st.noRecord++
+	x.havocPrefix(n, k)
+	n.st.noRecord--
+	// havocPrefix uses setHeap which records in Written; remove those marks (not a write of this thread)
+	for key := range n.st.Written {
+		if key == k || strings.HasPrefix(key, k+".") {
+			delete(n.st.Written, key)
+		}
+	}
+}
+
+// guardField: a guarded field may only be accessed while its lock is held (objects allocated by this
+// activation and not yet published are exempt).
+func (x *Exec) guardField(n *node, owner, field string, obj *Term, pos token.Pos, write bool) {
+	li := x.guardedBy(owner + "." + field)
+	if li == nil {
+		return
+	}
+	name := lockName(li)
+	if n.st.Locks[name] {
+		return
+	}
+	if n.st.FreshObjs[obj] > 0 {
+		return
+	}
+	if x.holdsByContract(name) {
+		return
+	}
+	txt := x.srcExpr(pos, "selector")
+	x.Oblige("lockset", fmt.Sprintf("%s.%s accessed without %s (%s)", owner, field, name, txt), fmt.Sprint(pos), pos, n.guard, False, li.Props)
+}
+
+// holdsByContract: the function under verification declares `requires holds(Lock)`.
+func (x *Exec) holdsByContract(name string) bool {
+	if x.Case == nil {
+		return false
+	}
+	for _, c := range x.Case.Clauses {
+		if c.Kind == "requires" && strings.Contains(c.Text, "holds("+strings.ReplaceAll(name, ".", "_")+")") {
+			return true
+		}
+	}
+	return false
+}
+
+func (x *Exec) guardMap(n *node, mv ssa.Value, m *Term, pos token.Pos, write bool) {
+	if mt, ok := mv.Type().Underlying().(*types.Map); ok {
+		x.guardMapByType(n, mt, m, pos, write)
+	}
+}
+
+func (x *Exec) guardMapByType(n *node, mt *types.Map, m *Term, pos token.Pos, write bool) {
+	li := x.guardedBy(mapKeyName(mt))
+	if li == nil {
+		return
+	}
+	name := lockName(li)
+	if n.st.Locks[name] || n.st.FreshObjs[m] > 0 || x.holdsByContract(name) {
+		return
+	}
+	x.Oblige("lockset", fmt.Sprintf("%s accessed without %s", mapKeyName(mt), name), fmt.Sprint(pos), pos, n.guard, False, li.Props)
+}
 
 func (x *Exec) ghostMapUpdate(n *node, mt *types.Map, mv ssa.Value, m, k *Term, v Value) {}
 
@@ -29,16 +187,115 @@ func (x *Exec) ghostSelectRecv(n *node, ch Value, v Value, chosen *Term, s *ssa.
 func (x *Exec) ghostSelectSend(n *node, ch, v Value, chosen *Term, s *ssa.SelectState) {}
 
 func (x *Exec) ghostSpawn(fc *funcCtx, n *node, ins ssa.Instruction, c *ssa.CallCommon) {
-	x.VC.Warnf("%s: go statement: spawned code is verified separately; no effect modelled here", x.TopName)
+	x.VC.Assumptions["go statements: the spawned function is verified separately under its own contract; the spawner continues without it"] = true
 }
 
 func (x *Exec) ghostAfterCall(n *node, fs *FuncSpec, name string, args, results []Value) {}
 
-// ghostCall evaluates ghost functions in contracts (tok(c), own(x), ...).
+// ---------- ghost fields ----------
+
+// ghostField reads ghost field name of object obj: heap component "ghost.<name>".
+func (x *Exec) ghostField(st *State, name string, obj *Term, s *Sort) *Term {
+	return x.objGet(st, "ghost."+name, s, obj)
+}
+
+// ghostCall evaluates ghost functions in contracts:
+//   gf_<name>(obj)  ghost field of Int sort (addresses: sid of the string), gb_<name>(obj) Bool ghost field,
+//   holds(Lock_name) lock held.
 func (e *SpecEnv) ghostCall(name string, n *ast.CallExpr) (Value, bool) {
+	x := e.x
+	ref := func(v Value) *Term {
+		switch vv := v.(type) {
+		case Scalar:
+			return vv.T
+		case IfaceV:
+			return vv.Val
+		case LocV:
+			return vv.Obj
+		}
+		return nil
+	}
+	switch {
+	case strings.HasPrefix(name, "gg_") && len(n.Args) == 0:
+		return Scalar{T: x.ghostField(e.st, "global."+name[3:], IntLit(0), IntS), Ty: nil}, true
+	case strings.HasPrefix(name, "ggb_") && len(n.Args) == 0:
+		return Scalar{T: x.ghostField(e.st, "global."+name[4:], IntLit(0), BoolS), Ty: tyBool}, true
+	case strings.HasPrefix(name, "gf_") && len(n.Args) == 1:
+		r := ref(e.eval(n.Args[0]))
+		if r == nil {
+			e.errorf("%s: object expected", name)
+			return UnknownV{}, true
+		}
+		return Scalar{T: x.ghostField(e.st, name[3:], r, IntS), Ty: nil}, true
+	case strings.HasPrefix(name, "gb_") && len(n.Args) == 1:
+		r := ref(e.eval(n.Args[0]))
+		if r == nil {
+			e.errorf("%s: object expected", name)
+			return UnknownV{}, true
+		}
+		return Scalar{T: x.ghostField(e.st, name[3:], r, BoolS), Ty: tyBool}, true
+	case name == "holds" && len(n.Args) == 1:
+		if id, ok := n.Args[0].(*ast.Ident); ok {
+			nm := strings.Replace(id.Name, "_", ".", 1)
+			if e.st.Locks[nm] || x.holdsByContract(nm) {
+				return Scalar{T: True, Ty: tyBool}, true
+			}
+			return Scalar{T: False, Ty: tyBool}, true
+		}
+	case name == "onceDone" && len(n.Args) == 1:
+		r := ref(e.eval(n.Args[0]))
+		if r != nil {
+			return Scalar{T: x.objGet(e.st, "Once.done", BoolS, r), Ty: tyBool}, true
+		}
+	}
 	return nil, false
 }
 
-func (x *Exec) setupGhostEntry(st *State) {}
+func (x *Exec) setupGhostEntry(st *State) {
+	// "observed during this activation" flags start false
+	for _, flag := range x.P.Spec.Observes {
+		s := Arr(IntS, BoolS)
+		st.Heap["ghost."+flag] = mk("(as const "+s.String()+")", s, False)
+	}
+	// locks the contract says are held on entry
+	if x.Case != nil {
+		for _, li := range x.P.Spec.Locks {
+			if x.holdsByContract(lockName(li)) {
+				st.Locks[lockName(li)] = true
+			}
+		}
+	}
+}
 
-func (x *Exec) ghostExit(out *State, rg *Term) {}
+func (x *Exec) ghostExit(out *State, rg *Term) {
+	// every lock acquired by the function is released on return (unless the contract says it is held)
+	for name, held := range out.Locks {
+		if !held || strings.HasPrefix(name, "?") {
+			if strings.HasPrefix(name, "?") {
+				x.Oblige("lockset", strings.TrimPrefix(name, "?")+" held on some return paths only", "", x.Top.Pos(), rg, False, nil)
+			}
+			continue
+		}
+		if x.holdsByContract(name) {
+			continue
+		}
+		x.Oblige("lockset", name+" still held at return", "", x.Top.Pos(), rg, False, nil)
+	}
+}
+
+// applyObserve: `observe Type.field as flag` sets ghost flag[obj] when the field is read as true under its lock.
+func (x *Exec) applyObserve(n *node, owner, field string, obj *Term, v Value) {
+	key := owner + "." + field
+	flag, ok := x.P.Spec.Observes[key]
+	if !ok {
+		return
+	}
+	sc, isB := v.(Scalar)
+	if !isB || sc.T.S != BoolS {
+		return
+	}
+	cur := x.ghostField(n.st, flag, obj, BoolS)
+	n.st.noRecord++
+	x.objSet(n.st, "ghost."+flag, obj, Or(cur, sc.T))
+	n.st.noRecord--
+}
